@@ -5,7 +5,8 @@
      class <id> <nbases> (<base> <virtual01>)*
      object <name> <class>
      call <callid> <method> <route 0=fn|1=macro> <defname>
-     varg <pos> <kind 0..6> <objname> <C> <D> <expr 0=prvalue|1=xvalue|2=lvalue> <len> <x0> .. <xn>
+     varg <pos> <kind 0..7> <objname> <C> <D> <expr 0=prvalue|1=xvalue|2=lvalue> <len> <x0> .. <xn>
+     keep <pos>          (the definition keeps a copy of the smart pointer of that varg; the caller then drops its own)
      narg <pos> <cat 0=val|1=lref|2=rref|3=moveonly> <expr> <value>
      ret <rkind 0=void|1=int|2=val|3=lref|4=moveonly> <value>
      endcall
@@ -28,7 +29,7 @@ let rec int_of_nat = function O -> 0 | S m -> 1 + int_of_nat m
 
 let path_str (s : sub) = String.concat "." (List.map (fun c -> string_of_int (int_of_n c)) s)
 
-let kind_names = [| "ref"; "rref"; "ptr"; "shared"; "cshared"; "vptr"; "vsptr" |]
+let kind_names = [| "ref"; "rref"; "ptr"; "shared"; "cshared"; "vptr"; "vsptr"; "cvsptr" |]
 let cat_names = [| "val"; "lref"; "rref"; "moveonly" |]
 let rkind_names = [| "void"; "int"; "val"; "lref"; "moveonly" |]
 
@@ -40,6 +41,8 @@ let () =
   let hier = ref [] in
   let tot_cp = ref 0 and tot_mv = ref 0 in
   let pending_ret = ref None in
+  let owners : (string, bool * int) Hashtbl.t = Hashtbl.create 7 in
+  let keeps = ref [] in
   let route = ref 0 in
   let callid = ref "" in
   let header_done = ref false in
@@ -73,6 +76,8 @@ let () =
            tot_cp := 0;
            tot_mv := 0;
            pending_ret := None;
+           Hashtbl.reset owners;
+           keeps := [];
            Printf.printf "C %s m=%s route=%s\n" id m (if !route = 0 then "fn" else "macro");
            Printf.printf "D %s\n" defname
        | "varg" :: p :: k :: objname :: c :: d :: e :: _len :: path ->
@@ -82,6 +87,8 @@ let () =
            let pr =
              predict_varg h (kind_of_nat (nat_of_int ki)) (n_of_int (int_of_string c)) s
                (n_of_int (int_of_string d)) (expr_of_nat (nat_of_int (int_of_string e))) in
+           Hashtbl.replace owners p
+             (pr.vp_same_owner = Some true, List.length (subobjects h (default_fuel h) (n_of_int (int_of_string c))));
            let sd b = if b then "S" else "D" in
            let ob = function None -> "-" | Some true -> "1" | Some false -> "0" in
            Printf.printf "V %s k=%s obj=%s path=%s lib=%s lang=%s back=%s uc=%s own=%s\n" p
@@ -91,6 +98,7 @@ let () =
              (sd pr.vp_lib_static) (sd pr.vp_lang_static) (ob pr.vp_back)
              (match pr.vp_uc with None -> "-" | Some u -> string_of_int (int_of_nat u))
              (ob pr.vp_same_owner)
+       | [ "keep"; p ] -> keeps := p :: !keeps
        | [ "narg"; p; c; e; v ] ->
            let ci = int_of_string c in
            let cat = ncat_of_nat (nat_of_int ci) in
@@ -121,6 +129,16 @@ let () =
                  | 3 -> Printf.printf "R k=lref val=%d cp=%d mv=%d same=1\n" value cp mv
                  | _ -> Printf.printf "R k=%s val=%d cp=%d mv=%d same=-\n" rkind_names.(k) value cp mv));
            Printf.printf "X cp=%d mv=%d as=0\n" !tot_cp !tot_mv;
+           (* a copy of a pointer that shares the caller's control block keeps the object alive after the
+              caller dropped its own pointers, and releases it when it is dropped in turn *)
+           let alive = ref 0 in
+           List.iter
+             (fun p ->
+               let o, nsub = try Hashtbl.find owners p with Not_found -> (false, 0) in
+               if o then alive := !alive + nsub;
+               Printf.printf "K %s kept=%d\n" p (if o then 1 else 0))
+             (List.rev !keeps);
+           if !keeps <> [] then Printf.printf "L alive=%d freed=1\n" !alive;
            Printf.printf "E %s\n" !callid
        | _ -> Printf.printf "?? %s\n" line
      done
